@@ -179,7 +179,7 @@ class CFG:
                     out.append((t, "T"))
             return out
         if isinstance(e, ast.IfExp):
-            t_ends, f_ends = self._cond(e.test, ends)
+            t_ends, f_ends = self._cond(e.test, ends, value_ctx=True)
             a = self._expr(e.body, t_ends)
             b = self._expr(e.orelse, f_ends)
             return a + b
@@ -211,28 +211,28 @@ class CFG:
             ends = self._expr(ch, ends)
         return ends
 
-    def _cond(self, e: ast.expr, ends: list[End]) -> tuple[list[End], list[End]]:
+    def _cond(self, e: ast.expr, ends: list[End], value_ctx: bool = False) -> tuple[list[End], list[End]]:
         if isinstance(e, ast.BoolOp):
             if isinstance(e.op, ast.And):
                 f_all: list[End] = []
                 cur = ends
                 for v in e.values:
-                    t, f = self._cond(v, cur)
+                    t, f = self._cond(v, cur, value_ctx)
                     f_all.extend(f)
                     cur = t
                 return cur, f_all
             t_all: list[End] = []
             cur = ends
             for v in e.values:
-                t, f = self._cond(v, cur)
+                t, f = self._cond(v, cur, value_ctx)
                 t_all.extend(t)
                 cur = f
             return t_all, cur
         if isinstance(e, ast.UnaryOp) and isinstance(e.op, ast.Not):
-            t, f = self._cond(e.operand, ends)
+            t, f = self._cond(e.operand, ends, value_ctx)
             return f, t
         ends = self._expr(e, ends)
-        n = self._new("test", e, cond=e)
+        n = self._new("test", e, cond=e, value_ctx=value_ctx)
         self._connect(ends, n)
         return [(n, "T")], [(n, "F")]
 
@@ -455,6 +455,94 @@ class CFG:
     def in_with(self, node: Node) -> list[Any]:
         """with-statements (ast) lexically enclosing the node."""
         return [c.with_item for c in self.ctx_chain(node.ctx) if c.type == "with"]
+
+    # ------------------------------------------------------------------ liveness of locals
+    def _use_def(self, n: Node) -> tuple[set[str], set[str]]:
+        uses: set[str] = set()
+        defs: set[str] = set()
+
+        def names(e: Any, into: set[str]) -> None:
+            if e is None:
+                return
+            for x in ast.walk(e):
+                if isinstance(x, ast.Name):
+                    into.add(x.id)
+
+        def target(t: Any) -> None:
+            if isinstance(t, ast.Name):
+                defs.add(t.id)
+            elif isinstance(t, (ast.Tuple, ast.List)):
+                for e in t.elts:
+                    target(e)
+            elif isinstance(t, ast.Starred):
+                target(t.value)
+            else:
+                names(t, uses)
+
+        k = n.kind
+        if k == "call":
+            names(n.ast, uses)
+        elif k == "await":
+            names(n.ast, uses)
+        elif k == "store":
+            names(n.info["value"], uses)
+            for t in n.info["targets"]:
+                target(t)
+                if n.info["aug"] is not None:
+                    names(t, uses)
+        elif k == "test":
+            names(n.info["cond"], uses)
+        elif k == "iter":
+            names(n.info["iter"], uses)
+            target(n.info["target"])
+        elif k == "return":
+            names(n.info.get("value"), uses)
+        elif k == "raise":
+            names(n.info.get("exc"), uses)
+            names(n.info.get("cause"), uses)
+        elif k == "handler":
+            if n.info.get("name"):
+                defs.add(n.info["name"])
+        elif k == "with_enter":
+            for it in n.info["items"]:
+                names(it.context_expr, uses)
+                if it.optional_vars is not None:
+                    target(it.optional_vars)
+        elif k == "def":
+            names(n.ast, uses)
+            defs.add(n.info["name"])
+        return uses, defs
+
+    def live_in(self) -> list[set[str]]:
+        """classic backward liveness of local names; exception edges go to every handler
+        entry / finally copy of the enclosing contexts (over-approximation = keeps more)"""
+        if getattr(self, "_live", None) is not None:
+            return self._live
+        n = len(self.nodes)
+        ud = [self._use_def(x) for x in self.nodes]
+        succs: list[set[int]] = [set(t for _l, t in x.succ) for x in self.nodes]
+        for x in self.nodes:
+            if x.kind in ("call", "await", "raise", "reraise_pending", "store", "test", "iter", "return", "with_enter"):
+                for c in self.ctx_chain(x.ctx):
+                    if c.type == "try":
+                        for h in c.handlers:
+                            succs[x.id].add(h.entry)
+                    elif c.type == "finally" and c.entry is not None:
+                        succs[x.id].add(c.entry)
+        live: list[set[str]] = [set() for _ in range(n)]
+        changed = True
+        while changed:
+            changed = False
+            for i in range(n - 1, -1, -1):
+                out: set[str] = set()
+                for t in succs[i]:
+                    out |= live[t]
+                new = ud[i][0] | (out - ud[i][1])
+                if new != live[i]:
+                    live[i] = new
+                    changed = True
+        self._live = live
+        return live
 
     # ------------------------------------------------------------------ debugging
     def dump(self) -> str:
